@@ -573,7 +573,7 @@ def run():
     opts = [["-greedy"], ["-greedy", "-size"], ["-greedy", "-length"], ["-greedy", "-no-simplification"],
             ["-greedy", "-storage"], ["-greedy", "-partition"], ["-greedy", "-size", "-partition"],
             ["-greedy", "-push0"]]
-    cases = common.gen_cases(n, common.seed(), opts, kinds=["rule", "rule", "rule", "grammar", "mem"],
+    cases = common.gen_cases(n, common.seed(), opts, kinds=["rule", "rule", "rule", "grammar", "mem", "overlap"],
                              k_states=12 if quick else 32)
 
     class Col(common.Collector):
